@@ -1631,6 +1631,9 @@ func ruleFunnel(p *Prog, r *Report) {
 						}
 					}
 				}
+				if !nonNil && p.E3().definitelyNonNil(e, b) {
+					nonNil = true // e.g. the read error where there is one, io.ErrUnexpectedEOF otherwise
+				}
 				if !nonNil {
 					bad = "error return not on the err != nil edge of the read"
 				}
@@ -1764,6 +1767,25 @@ func checkBufWindow(p *Prog, call *ssa.Call, f *ssa.Function, W int64) string {
 		if bo, ok := cd.V.(*ssa.BinOp); ok && bo.X == ssa.Value(errV) && isNilConst(bo.Y) {
 			if (bo.Op == token.EQL) == cd.True {
 				okEdge = true
+			}
+		}
+	}
+	// for ReadAt the decisive test may be on the count instead: n >= W (the whole window was delivered, whatever error —
+	// io.EOF with the last bytes is legal — came with it)
+	if !okEdge {
+		if cntV := tupleExtract(readCall, 0); cntV != nil {
+			for _, cd := range condsAt(call.Block()) {
+				bo, ok := cd.V.(*ssa.BinOp)
+				if !ok || bo.X != ssa.Value(cntV) {
+					continue
+				}
+				k, ok := constInt(bo.Y)
+				if !ok {
+					continue
+				}
+				if (bo.Op == token.LSS && !cd.True && k == W) || (bo.Op == token.GEQ && cd.True && k == W) || (bo.Op == token.EQL && cd.True && k == W) || (bo.Op == token.NEQ && !cd.True && k == W) {
+					okEdge = true
+				}
 			}
 		}
 	}
